@@ -23,6 +23,10 @@ structure HSt (V : Type) where
   out : List (Ev V)
   /-- events passed to `outer_observer.on_next` (the path around the inner pipeline of a splitter) so far -/
   outer : List (Ev V) := []
+  /-- mapper states (`create_mapper`): state id → slot index → insertion-ordered dict map_key → group index (`none` = CLEARED) -/
+  maps : Nat → Nat → Option (List (V × Nat)) := fun _ _ => none
+  /-- `next_index` of the mapper store (`free_slots` is never filled by the code) -/
+  nextIndex : Nat := 0
 
 abbrev HM (V : Type) := ExceptT Err (StateM (HSt V))
 
@@ -59,6 +63,50 @@ def emit (e : Ev V) : HM V Unit :=
 def emitOuter (e : Ev V) : HM V Unit :=
   modify fun s => { s with outer := s.outer ++ [e] }
 
+def updMap (f : Nat → Nat → Option (List (V × Nat))) (sid i : Nat) (m : Option (List (V × Nat))) :
+    Nat → Nat → Option (List (V × Nat)) :=
+  fun sid' i' => if sid' = sid ∧ i' = i then m else f sid' i'
+
+/-- `add_key` on a mapper state: an empty dict -/
+def addKeyMap (sid : Nat) (k : Key) : HM V Unit :=
+  modify fun s => { s with maps := updMap s.maps sid k.idx (some []) }
+
+/-- `del_key` on a mapper state -/
+def delKeyMap (sid : Nat) (k : Key) : HM V Unit :=
+  modify fun s => { s with maps := updMap s.maps sid k.idx none }
+
+/-- `i.store.get_map(state, key, map_key)`: `none` is STATE_NOTSET -/
+def getMap [PyAlg V] (sid : Nat) (k : Key) (mk : V) : HM V (Option Nat) := do
+  let s ← get
+  match s.maps sid k.idx with
+  | some m => pure ((m.find? (fun p => PyAlg.eq p.1 mk)).map (·.2))
+  | none => throw "ClearedSlot"
+
+/-- `i.store.add_map(state, key, map_key)`: the next group index -/
+def addMap (sid : Nat) (k : Key) (mk : V) : HM V Nat := do
+  let s ← get
+  match s.maps sid k.idx with
+  | some m =>
+    set { s with maps := updMap s.maps sid k.idx (some (m ++ [(mk, s.nextIndex)])), nextIndex := s.nextIndex + 1 }
+    pure s.nextIndex
+  | none => throw "ClearedSlot"
+
+/-- `i.store.del_map(state, key, map_key)`: a lookup that deletes nothing (rxsci/state/memory_store.py) -/
+def delMap (_sid : Nat) (_k : Key) (_mk : V) : HM V Unit := pure ()
+
+/-- `i.store.iterate_map(state, key)`: the mapped keys in insertion order -/
+def iterateMap (sid : Nat) (k : Key) : HM V (List V) := do
+  let s ← get
+  match s.maps sid k.idx with
+  | some m => pure (m.map (·.1))
+  | none => throw "ClearedSlot"
+
+/-- a group index read with `get_map` used as a key component -/
+def unmarkN (m : Option Nat) : HM V Nat :=
+  match m with
+  | some v => pure v
+  | none => throw "NOTSET-used-as-an-index"
+
 /-- a value read with `get_state` used as an ordinary value (the NOTSET marker object is not a value of the model) -/
 def unmark (m : Option V) : HM V V :=
   match m with
@@ -67,14 +115,20 @@ def unmark (m : Option V) : HM V V :=
 
 /-- run a handler on a store, from an empty output list: the exception that escaped (if any), the store, the emitted events -/
 def runH (m : HM V Unit) (stores : Nat → Nat → Slot V) : Except Err Unit × (Nat → Nat → Slot V) × List (Ev V) :=
-  let r := (ExceptT.run m).run ⟨stores, [], []⟩
+  let r := (ExceptT.run m).run { stores := stores, out := [] }
   (r.1, r.2.stores, r.2.out)
 
 /-- the same for a splitter: additionally the events sent around the inner pipeline -/
 def runH2 (m : HM V Unit) (stores : Nat → Nat → Slot V) :
     Except Err Unit × (Nat → Nat → Slot V) × List (Ev V) × List (Ev V) :=
-  let r := (ExceptT.run m).run ⟨stores, [], []⟩
+  let r := (ExceptT.run m).run { stores := stores, out := [] }
   (r.1, r.2.stores, r.2.out, r.2.outer)
+
+/-- the same for a splitter that keeps a mapper state (group_by): the dicts and the index counter in, and out -/
+def runHM (m : HM V Unit) (maps : Nat → Nat → Option (List (V × Nat))) (next : Nat) :
+    Except Err Unit × (Nat → Nat → Option (List (V × Nat))) × Nat × List (Ev V) × List (Ev V) :=
+  let r := (ExceptT.run m).run { stores := fun _ _ => none, out := [], maps := maps, nextIndex := next }
+  (r.1, r.2.maps, r.2.nextIndex, r.2.out, r.2.outer)
 
 end HM
 end Rx
